@@ -7,7 +7,7 @@ PLAN = {
     "C03": ["K01b", "K01c", "K03", "K12a", "L03"],
     "C04": ["K04a", "K04c", "K04f", "K04g", "K16", "L04"],
     "C05": ["K05a", "L05", "L05b"],
-    "C06": ["K06", "L06"],
+    "C06": ["K06", "K06c", "L06"],
     "C07": ["L07"],
     "C08": ["K08b", "K08c", "K13b", "K14b", "L08"],
     "C09": ["K08b", "L09"],
